@@ -53,7 +53,7 @@ def check(run):
     thorough = run.tier == "thorough"
     specs = systematic()
     r = gen.rng_for(run.seed, "c12")
-    for i in range(900 if thorough else 150):
+    for i in range(3000 if thorough else 450):
         specs.append(strgen.build(r, "R%d" % i, ["EnumString"], allow_default=(i % 3 == 0), naming_bias=0.8,
                                   generics_pool=(None, None, "T"), max_n=6))
     units = []
@@ -65,7 +65,7 @@ def check(run):
     run.rule = RULE
     samples = standard_flow(run, units, deps["std"], vmon, profiles=("fast",), tag="c12",
                             extra_args=["flipk=%d" % (12 if thorough else 10)])
-    punits = c01.phf_units(r, 300 if thorough else 70, spec_by_unit)
+    punits = c01.phf_units(r, 1000 if thorough else 200, spec_by_unit)
     samples.update(standard_flow(run, punits, deps["phf"], vmon, profiles=("fast",), tag="c12p",
                                  extra_args=["flipk=%d" % (12 if thorough else 10)]))
     units = units + punits
